@@ -25,7 +25,7 @@ THEOREMS = [
     'Pysmi.Reader.C14_never_truncated',
     'Pysmi.Reader.C14_zip_lookup_sound',
     'Pysmi.Reader.C14_zip_members_top',
-    'Pysmi.Reader.C14_url_kind', 'Pysmi.Reader.C14_url_target',
+    'Pysmi.Reader.C14_url_kind', 'Pysmi.Reader.C14_url_target', 'Pysmi.Reader.C14_plain_path_whole',
 ]
 TECHNIQUE = ('Lean 4 theorems about a model of getMibVariants, .index precedence, directory-tree lookup, the ZIP member table '
              '(any nesting) and URL->reader kind; differential correspondence against FileReader/ZipReader/getReadersFromUrls on '
@@ -121,18 +121,28 @@ def run_filereader(rng, name, opts, use_index_entry):
         os.makedirs(root)
         files = gen_tree(rng, root, name)
         index = []
+        junk = b''
         if use_index_entry and files:
             rel = rng.choice(sorted(files))
             index = [[name, os.path.basename(rel)]] if rng.random() < 0.7 else [['OTHER-MIB', os.path.basename(rel)]]
             if rng.random() < 0.4:
                 # an earlier line for the same module (the later one counts, as in a dictionary), lines for other modules
                 index = [[name, 'superseded.txt'], ['ELSE-MIB', os.path.basename(rel)]] + index
-            with open(os.path.join(root, '.index'), 'w') as f:
+            # a line for some other module with bytes that are no UTF-8 (a Latin-1 file name, a stray byte): the other lines count as ever
+            junk = rng.choice([b'', b'', b'OLD-MIB caf\xe9.txt\n', b'\xff\xfe\n', b'ODD-\x80MIB odd.txt\n'])
+            with open(os.path.join(root, '.index'), 'wb') as f:
                 # (a line that does not hold a module name and a file name maps nothing)
-                f.write(rng.choice(['', '\n', '   \n', 'loneword\n', '# comment\n\n']))
+                f.write(rng.choice([b'', b'\n', b'   \n', b'loneword\n', b'# comment\n\n']))
+                if rng.random() < 0.5:
+                    f.write(junk)
+                    junk_at = 'before'
+                else:
+                    junk_at = 'after'
                 for k, v in index:
-                    f.write('%s %s\n' % (k, v))
-                f.write(rng.choice(['', '\n', 'trailing-word\n']))
+                    f.write(('%s %s\n' % (k, v)).encode())
+                if junk_at == 'after':
+                    f.write(junk)
+                f.write(rng.choice([b'', b'\n', b'trailing-word\n']))
         limit = rng.choice([None, None, 3000, 3001, 20])
         kw = {} if limit is None else {'maxMibSize': limit}
         large = [] if limit is None else [i for i, c in enumerate(CONTENTS) if len(c) >= limit]
@@ -162,7 +172,7 @@ def run_filereader(rng, name, opts, use_index_entry):
             got, exact = 'toolarge', True
         except Exception:
             got, exact = 'indexerror', True           # any exception that is not the package's
-        req = dict(opts, op='filereader', name=name, exts=EXTS, index=index, useIndex=True, dirs=listing, large=large)
+        req = dict(opts, op='filereader', name=name, exts=EXTS, index=index, useIndex=True, dirs=listing, large=large, indexJunk=list(junk))
         present = {os.path.basename(k) for k in files}
         return got, exact, req, present, index
     finally:
@@ -277,7 +287,11 @@ URLS = ['/tmp/mibs', 'file:///usr/share/snmp/mibs', '/data/mibs.zip', 'file:///d
         'zip:///data/dir', 'mibs.ZIP', 'relative/dir', 'http://mibs.example.com/asn1/@mib@', 'https://h/x.zip',
         'ftp://host/pub/@mib@', 'sftp://u:p@host:2222/x/@mib@', 'gopher://x/y', 'telnet://h/@mib@.zip',
         # the archive named where a host would stand (the form the documentation gives)
-        'zip://mymibs.zip', 'zip://dir/sub/mymibs.ZIP', 'zip://mymibs', 'zip://relative/dir']
+        'zip://mymibs.zip', 'zip://dir/sub/mymibs.ZIP', 'zip://mymibs', 'zip://relative/dir',
+        # plain local paths are no URLs: '#', '?', ';' and '%' are characters of the path
+        '/tmp/mibs#2', '/tmp/mibs?', '/tmp/mibs;old', '/tmp/mibs%41', 'rel/dir#1/mibs', '/data/a#b.zip', '/data/mibs.zip#x', 'a%2Fb',
+        # ... of a file: URL they are escaped
+        'file:///tmp/mibs%232', 'file:///data/a%23b.zip']
 
 
 def run_urls(ctx):
@@ -297,7 +311,9 @@ def run_urls(ctx):
         except error.PySmiError as e:
             kind = 'unsupported' if 'Unsupported URL scheme' in str(e) else 'error:' + str(e)
         pr = urlparse.urlparse(u)
-        path = url2pathname(pr.path) if pr.scheme in ('', 'file', 'zip') else pr.path
+        path = url2pathname(pr.path) if pr.scheme in ('file', 'zip') else pr.path
+        if not pr.scheme:
+            path = u            # a plain local path denotes itself
         raw_path = path
         if pr.scheme == 'zip' and pr.netloc:
             path = url2pathname(pr.netloc + pr.path)
@@ -514,10 +530,10 @@ def replay(payload):
                     f.write(CONTENTS[cid])
                 os.utime(os.path.join(d, fn), (mt, mt))
         if req['index']:
-            with open(os.path.join(root, '.index'), 'w') as f:
-                f.write('\nloneword\n')
+            with open(os.path.join(root, '.index'), 'wb') as f:
+                f.write(b'\nloneword\n' + bytes(req.get('indexJunk', [])))
                 for k, v in req['index']:
-                    f.write('%s %s\n' % (k, v))
+                    f.write(('%s %s\n' % (k, v)).encode())
         kw = {}
         if req.get('large'):
             kw['maxMibSize'] = min(len(CONTENTS[i]) for i in req['large'])
